@@ -326,6 +326,53 @@ func labelsBytes(ls []ot.Label) []byte {
 	return out
 }
 
+// decoded fields of the five kinds of values, as the model prints them
+func c18FieldsR1(p sha2pc.Round1Payload) []SX {
+	return []SX{U64(p.SessionID), Bytes([]byte(p.OT.CurveName)), bigOr0(p.OT.A.X), bigOr0(p.OT.A.Y)}
+}
+
+func c18FieldsR2(p sha2pc.Round2Payload) []SX {
+	xs := make([]SX, len(p.Choices))
+	ys := make([]SX, len(p.Choices))
+	for i, pt := range p.Choices {
+		xs[i] = bigOr0(pt.X)
+		ys[i] = bigOr0(pt.Y)
+	}
+	return []SX{U64(p.SessionID), Bytes([]byte(p.CurveName)), L(xs...), L(ys...)}
+}
+
+func c18FieldsR3(p sha2pc.Round3Payload) []SX {
+	var tables []ot.Label
+	for _, row := range p.GarbledTables {
+		tables = append(tables, row...)
+	}
+	var hints, cts []byte
+	for _, w := range p.OutputHints {
+		hints = append(hints, labelsBytes([]ot.Label{w.L0, w.L1})...)
+	}
+	for _, ct := range p.Ciphertexts {
+		cts = append(cts, ct.Zero[:]...)
+		cts = append(cts, ct.One[:]...)
+	}
+	return []SX{U64(p.SessionID), blobSX(p.Key[:]), blobSX(labelsBytes(tables)),
+		blobSX(labelsBytes(p.GarblerInputs)), blobSX(hints), blobSX(cts)}
+}
+
+func c18FieldsGS(p *sha2pc.GarblerSession) []SX {
+	s := p.SenderSetup
+	return []SX{U64(p.SessionID), Bytes([]byte(s.CurveName)), bigOr0(s.Scalar), bigOr0(s.Ax), bigOr0(s.Ay),
+		bigOr0(s.AaInvX), bigOr0(s.AaInvY)}
+}
+
+func c18FieldsES(p *sha2pc.EvaluatorSession) []SX {
+	s := p.ChoiceBundle
+	sc := make([]SX, len(s.Scalars))
+	for i, v := range s.Scalars {
+		sc[i] = bigOr0(v)
+	}
+	return []SX{U64(p.SessionID), Bytes([]byte(s.CurveName)), bigOr0(s.Ax), bigOr0(s.Ay), L(sc...), Bits(s.Bits)}
+}
+
 // ---------------------------------------------------------------- decoding under recover
 
 const (
@@ -367,7 +414,7 @@ func c18Decode(kind int, cv c18Curve, data []byte) c18Decoded {
 		d.class, d.msg = c18Guard(func() (err error) { p, err = sha2pc.DecodeRound1(cv.c, data); return })
 		if d.class == clsOk {
 			d.val = p
-			d.obs = []SX{U64(p.SessionID), Bytes([]byte(p.OT.CurveName)), bigOr0(p.OT.A.X), bigOr0(p.OT.A.Y)}
+			d.obs = c18FieldsR1(p)
 			d.reCls, _ = c18Guard(func() (err error) { d.reEnc, err = sha2pc.EncodeRound1(cv.c, p); return })
 		}
 	case c18R2:
@@ -375,13 +422,7 @@ func c18Decode(kind int, cv c18Curve, data []byte) c18Decoded {
 		d.class, d.msg = c18Guard(func() (err error) { p, err = sha2pc.DecodeRound2(cv.c, data); return })
 		if d.class == clsOk {
 			d.val = p
-			xs := make([]SX, len(p.Choices))
-			ys := make([]SX, len(p.Choices))
-			for i, pt := range p.Choices {
-				xs[i] = bigOr0(pt.X)
-				ys[i] = bigOr0(pt.Y)
-			}
-			d.obs = []SX{U64(p.SessionID), Bytes([]byte(p.CurveName)), L(xs...), L(ys...)}
+			d.obs = c18FieldsR2(p)
 			d.reCls, _ = c18Guard(func() (err error) { d.reEnc, err = sha2pc.EncodeRound2(cv.c, p); return })
 		}
 	case c18R3:
@@ -389,20 +430,7 @@ func c18Decode(kind int, cv c18Curve, data []byte) c18Decoded {
 		d.class, d.msg = c18Guard(func() (err error) { p, err = sha2pc.DecodeRound3(data); return })
 		if d.class == clsOk {
 			d.val = p
-			var tables []ot.Label
-			for _, row := range p.GarbledTables {
-				tables = append(tables, row...)
-			}
-			var hints, cts []byte
-			for _, w := range p.OutputHints {
-				hints = append(hints, labelsBytes([]ot.Label{w.L0, w.L1})...)
-			}
-			for _, ct := range p.Ciphertexts {
-				cts = append(cts, ct.Zero[:]...)
-				cts = append(cts, ct.One[:]...)
-			}
-			d.obs = []SX{U64(p.SessionID), blobSX(p.Key[:]), blobSX(labelsBytes(tables)),
-				blobSX(labelsBytes(p.GarblerInputs)), blobSX(hints), blobSX(cts)}
+			d.obs = c18FieldsR3(p)
 			d.reCls, _ = c18Guard(func() (err error) { d.reEnc, err = sha2pc.EncodeRound3(p); return })
 		}
 	case c18GS:
@@ -410,9 +438,7 @@ func c18Decode(kind int, cv c18Curve, data []byte) c18Decoded {
 		d.class, d.msg = c18Guard(func() (err error) { p, err = sha2pc.DecodeGarblerSession(cv.c, data); return })
 		if d.class == clsOk {
 			d.val = p
-			s := p.SenderSetup
-			d.obs = []SX{U64(p.SessionID), Bytes([]byte(s.CurveName)), bigOr0(s.Scalar), bigOr0(s.Ax), bigOr0(s.Ay),
-				bigOr0(s.AaInvX), bigOr0(s.AaInvY)}
+			d.obs = c18FieldsGS(p)
 			d.reCls, _ = c18Guard(func() (err error) { d.reEnc, err = sha2pc.EncodeGarblerSession(cv.c, p); return })
 		}
 	case c18ES:
@@ -420,12 +446,7 @@ func c18Decode(kind int, cv c18Curve, data []byte) c18Decoded {
 		d.class, d.msg = c18Guard(func() (err error) { p, err = sha2pc.DecodeEvaluatorSession(cv.c, data); return })
 		if d.class == clsOk {
 			d.val = p
-			s := p.ChoiceBundle
-			sc := make([]SX, len(s.Scalars))
-			for i, v := range s.Scalars {
-				sc[i] = bigOr0(v)
-			}
-			d.obs = []SX{U64(p.SessionID), Bytes([]byte(s.CurveName)), bigOr0(s.Ax), bigOr0(s.Ay), L(sc...), Bits(s.Bits)}
+			d.obs = c18FieldsES(p)
 			d.reCls, _ = c18Guard(func() (err error) { d.reEnc, err = sha2pc.EncodeEvaluatorSession(cv.c, p); return })
 		}
 	}
@@ -1010,6 +1031,303 @@ func c18Overlapping(c *Ctx) {
 	}
 }
 
+// ---------------------------------------------------------------- op histories
+//
+// A process holding several sessions calls an encoder several times and keeps
+// every returned []byte (no copy) before it decodes any of them.  The model's
+// run_history (IO/Sha2pcCodec.v) says: decoding slot j gives the j-th encoded
+// value whatever was encoded later.  The history is a correspondence case
+// (model and implementation must print the same decoded values per Dec op)
+// and an oracle: a held slice must stay equal to the copy taken right after
+// its Encode returned (the result is owned by the caller).
+
+var c18EncName = map[int]string{c18R1: "EncodeRound1", c18R2: "EncodeRound2", c18R3: "EncodeRound3",
+	c18GS: "EncodeGarblerSession", c18ES: "EncodeEvaluatorSession"}
+
+type c18Val struct {
+	kind int
+	run  *c18Run
+}
+
+func (v c18Val) fields() []SX {
+	switch v.kind {
+	case c18R1:
+		return c18FieldsR1(v.run.r1)
+	case c18R2:
+		return c18FieldsR2(v.run.r2)
+	case c18R3:
+		return c18FieldsR3(v.run.r3)
+	case c18GS:
+		return c18FieldsGS(v.run.gs)
+	}
+	return c18FieldsES(v.run.es)
+}
+
+func (v c18Val) encode() (b []byte, cls int) {
+	cv := v.run.cv
+	cls, _ = c18Guard(func() (err error) {
+		switch v.kind {
+		case c18R1:
+			b, err = sha2pc.EncodeRound1(cv.c, v.run.r1)
+		case c18R2:
+			b, err = sha2pc.EncodeRound2(cv.c, v.run.r2)
+		case c18R3:
+			b, err = sha2pc.EncodeRound3(v.run.r3)
+		case c18GS:
+			b, err = sha2pc.EncodeGarblerSession(cv.c, v.run.gs)
+		default:
+			b, err = sha2pc.EncodeEvaluatorSession(cv.c, v.run.es)
+		}
+		return
+	})
+	return
+}
+
+type c18Op struct {
+	enc  bool
+	val  c18Val
+	slot int
+}
+
+func sxKey(items []SX) string { return L(items...).String() }
+
+// c18History executes one op history on the real encoders/decoders.
+func c18History(c *Ctx, cv c18Curve, ops []c18Op) {
+	var store, copies [][]byte
+	var vals []c18Val
+	var aliased []bool
+	var opsSX, encObs, decObs []SX
+	hist := ""
+	checkOwned := func(when string) {
+		for j := range store {
+			if !aliased[j] && !bytes.Equal(store[j], copies[j]) {
+				aliased[j] = true
+				diff := 0
+				for diff < len(store[j]) && store[j][diff] == copies[j][diff] {
+					diff++
+				}
+				what := fmt.Sprintf("the []byte returned by %s for slot %d changed %s (first differing byte %d of %d): the result aliases a buffer that a later call reuses; history %s",
+					c18EncName[vals[j].kind], j, when, diff, len(store[j]), hist)
+				c.Fail(fmt.Sprintf("c18:%s:result-aliases-shared-buffer", c18EncName[vals[j].kind]), what,
+					c18Replay{Seed: c.Seed, Curve: cv.name, Kind: c18EncName[vals[j].kind], Plan: hist, What: what,
+						Seeds: fmt.Sprintf("%d,%d,%d", vals[j].run.s1, vals[j].run.s2, vals[j].run.s3)})
+			}
+		}
+	}
+	for _, op := range ops {
+		if op.enc {
+			hist += fmt.Sprintf("Enc(%s#%d) ", c18EncName[op.val.kind][6:], len(store))
+			items := append([]SX{I(0), I(op.val.kind)}, op.val.fields()...)
+			opsSX = append(opsSX, L(items...))
+			b, cls := op.val.encode()
+			store = append(store, b) // held as returned, NOT copied
+			copies = append(copies, cloneBytes(b))
+			vals = append(vals, op.val)
+			aliased = append(aliased, false)
+			encObs = append(encObs, L(I(cls), I(len(b))))
+			checkOwned(fmt.Sprintf("after the encode of slot %d", len(store)-1))
+			continue
+		}
+		hist += fmt.Sprintf("Dec(%d) ", op.slot)
+		opsSX = append(opsSX, L(I(1), I(op.slot)))
+		if op.slot >= len(store) {
+			decObs = append(decObs, L(I(1)))
+			continue
+		}
+		v := vals[op.slot]
+		d := c18Decode(v.kind, cv, store[op.slot])
+		if d.class != clsOk {
+			decObs = append(decObs, L(I(d.class)))
+		} else {
+			decObs = append(decObs, L(append([]SX{I(0)}, d.obs...)...))
+		}
+		if d.class != clsOk || sxKey(d.obs) != sxKey(v.fields()) {
+			what := fmt.Sprintf("decoding the bytes held for slot %d (%s) does not give the value that was encoded there; history %s",
+				op.slot, c18EncName[v.kind], hist)
+			c.Fail(fmt.Sprintf("c18:%s:held-result-decodes-to-another-value", c18EncName[v.kind]), what,
+				c18Replay{Seed: c.Seed, Curve: cv.name, Kind: c18EncName[v.kind], Plan: hist, What: what,
+					Seeds: fmt.Sprintf("%d,%d,%d", v.run.s1, v.run.s2, v.run.s3)})
+		}
+	}
+	checkOwned("by the end of the history")
+	c.Case(L(I(7), I(cv.id), L(opsSX...)), L(L(encObs...), L(decObs...)))
+	c.Eval("hist|"+cv.name+"|"+hist+fmt.Sprint(vals[0].run.s1), true)
+	c.Hist("history:" + c18EncName[vals[0].kind])
+}
+
+// c18Histories: for every encoder k = 2..4 distinct values, all encoded before
+// any is decoded (pattern A) or with decodes between later encodes (pattern
+// B), plus one history mixing the kinds.
+func c18Histories(c *Ctx, cv c18Curve, runs []*c18Run, withR3 bool) {
+	r := c.rng.Fork()
+	kinds := []int{c18R1, c18R2, c18GS, c18ES}
+	if withR3 {
+		kinds = append(kinds, c18R3)
+	}
+	for _, kind := range kinds {
+		k := 2 + r.Intn(3)
+		if k > len(runs) {
+			k = len(runs)
+		}
+		if kind == c18R3 && !c.Thorough() {
+			k = 2
+		}
+		perm := make([]int, len(runs))
+		for i := range perm {
+			perm[i] = i
+		}
+		for i := len(perm) - 1; i > 0; i-- {
+			j := r.Intn(i + 1)
+			perm[i], perm[j] = perm[j], perm[i]
+		}
+		var ops []c18Op
+		if r.Intn(2) == 0 || kind == c18R3 {
+			for i := 0; i < k; i++ {
+				ops = append(ops, c18Op{enc: true, val: c18Val{kind, runs[perm[i]]}})
+			}
+			for i := 0; i < k; i++ {
+				if kind == c18R3 && !c.Thorough() && i > 0 {
+					break // quick: one full-size decode (the slot encoded first)
+				}
+				ops = append(ops, c18Op{slot: i})
+			}
+		} else {
+			for i := 0; i < k; i++ {
+				ops = append(ops, c18Op{enc: true, val: c18Val{kind, runs[perm[i]]}})
+				if i > 0 {
+					ops = append(ops, c18Op{slot: r.Intn(i)})
+				}
+			}
+			for i := k - 1; i >= 0; i-- {
+				ops = append(ops, c18Op{slot: i})
+			}
+		}
+		c18History(c, cv, ops)
+	}
+	// mixed kinds
+	var ops []c18Op
+	for i := 0; i < 2 && i < len(runs); i++ {
+		for _, kind := range []int{c18ES, c18GS, c18R1} {
+			ops = append(ops, c18Op{enc: true, val: c18Val{kind, runs[i]}})
+		}
+	}
+	for i, n := 0, len(ops); i < n; i++ {
+		ops = append(ops, c18Op{slot: i})
+	}
+	c18History(c, cv, ops)
+}
+
+// c18OverlapCheckpoints: two protocol runs in one process; at every stage the
+// messages and the session checkpoints of BOTH runs are encoded (and the
+// slices held) before either is decoded/restored; both must finish with
+// SHA-256(a xor b).
+func c18OverlapCheckpoints(c *Ctx, cv c18Curve) {
+	r := c.rng.Fork()
+	ss := []*c18Sess{c18NewSess(r, 0, cv), c18NewSess(r, 1, cv)}
+	type held struct {
+		enc  string
+		b, c []byte
+	}
+	var all []held
+	hold := func(enc string, b []byte, err error) ([]byte, error) {
+		if err == nil {
+			all = append(all, held{enc, b, cloneBytes(b)})
+		}
+		return b, err
+	}
+	fail := func(s *c18Sess, key, what string) {
+		c.Fail("c18:overlapping-checkpoints:"+key, what, c18Replay{Seed: c.Seed, Curve: cv.name, What: what,
+			A: fmt.Sprintf("%x", s.a), B: fmt.Sprintf("%x", s.b), Seeds: fmt.Sprintf("%d,%d,%d", s.s1, s.s2, s.s3),
+			Plan: "two runs; every message and checkpoint of both runs encoded before either is decoded"})
+	}
+	var e1, cg, e2, ce, e3 [2][]byte
+	var err error
+	stage := func(f func(i int, s *c18Sess) error) bool {
+		for i, s := range ss {
+			if err = f(i, s); err != nil {
+				fail(s, "round-error", "overlapping checkpointed runs: "+err.Error())
+				return false
+			}
+		}
+		return true
+	}
+	ok := stage(func(i int, s *c18Sess) (err error) {
+		if s.r1, s.gs, err = sha2pc.GarblerRound1(NewRNG(s.s1), cv.c); err != nil {
+			return
+		}
+		b, err := sha2pc.EncodeRound1(cv.c, s.r1)
+		if e1[i], err = hold("EncodeRound1", b, err); err != nil {
+			return err
+		}
+		b, err = sha2pc.EncodeGarblerSession(cv.c, s.gs)
+		cg[i], err = hold("EncodeGarblerSession", b, err)
+		return err
+	}) && stage(func(i int, s *c18Sess) (err error) {
+		r1, err := sha2pc.DecodeRound1(cv.c, e1[i])
+		if err != nil {
+			return err
+		}
+		if s.r2, s.es, err = sha2pc.EvaluatorRound2(NewRNG(s.s2), cv.c, r1, s.b); err != nil {
+			return err
+		}
+		b, err := sha2pc.EncodeRound2(cv.c, s.r2)
+		if e2[i], err = hold("EncodeRound2", b, err); err != nil {
+			return err
+		}
+		b, err = sha2pc.EncodeEvaluatorSession(cv.c, s.es)
+		ce[i], err = hold("EncodeEvaluatorSession", b, err)
+		return err
+	}) && stage(func(i int, s *c18Sess) (err error) {
+		gs, err := sha2pc.DecodeGarblerSession(cv.c, cg[i])
+		if err != nil {
+			return err
+		}
+		r2, err := sha2pc.DecodeRound2(cv.c, e2[i])
+		if err != nil {
+			return err
+		}
+		if s.r3, err = sha2pc.GarblerRound3(NewRNG(s.s3), cv.c, gs, s.a, r2); err != nil {
+			return err
+		}
+		b, err := sha2pc.EncodeRound3(s.r3)
+		e3[i], err = hold("EncodeRound3", b, err)
+		return err
+	}) && stage(func(i int, s *c18Sess) (err error) {
+		es, err := sha2pc.DecodeEvaluatorSession(cv.c, ce[i])
+		if err != nil {
+			return err
+		}
+		r3, err := sha2pc.DecodeRound3(e3[i])
+		if err != nil {
+			return err
+		}
+		s.digest, err = sha2pc.EvaluatorRound4(cv.c, es, r3)
+		return err
+	})
+	seen := map[string]bool{}
+	for _, h := range all {
+		if h.b != nil && !bytes.Equal(h.b, h.c) && !seen[h.enc] {
+			seen[h.enc] = true
+			what := "the []byte returned by " + h.enc + " changed while the other run's value was encoded: the result aliases a shared buffer"
+			c.Fail("c18:"+h.enc+":result-aliases-shared-buffer", what, c18Replay{Seed: c.Seed, Curve: cv.name, Kind: h.enc, What: what,
+				Plan: "two overlapping checkpointed runs"})
+		}
+	}
+	if ok {
+		for _, s := range ss {
+			var x [32]byte
+			for i := range x {
+				x[i] = s.a[i] ^ s.b[i]
+			}
+			if want := sha256.Sum256(x[:]); s.digest != want {
+				fail(s, "wrong-digest", "overlapping checkpointed runs: evaluator output differs from SHA-256(a xor b)")
+			}
+		}
+	}
+	c.Eval(fmt.Sprintf("overlap-checkpoints|%s|%d", cv.name, ss[0].s1), true)
+	c.Hist("overlap:checkpoints:" + cv.name)
+}
+
 // ---------------------------------------------------------------- runner
 
 func c18Inputs(r *RNG, class int) (a, b [32]byte, name string) {
@@ -1183,7 +1501,7 @@ func runC18(c *Ctx) error {
 			for _, k := range []int{c18R1, c18R2, c18GS, c18ES} {
 				c18EmitDecode(c, k, cv, c18Mut{name: "pristine", segs: c18Auto(base.enc[k])}, true)
 			}
-			if fullR3 < c.N(2, 8) && class >= 2 && (c.Thorough() || ci < 2) {
+			if fullR3 < c.N(0, 8) && class >= 2 { // quick: the Round3 op history decodes a pristine full-size payload
 				fullR3++
 				c18EmitDecode(c, c18R3, cv, c18Mut{name: "pristine", segs: c18Auto(base.enc[c18R3])}, true)
 				if !c.Thorough() {
@@ -1198,6 +1516,10 @@ func runC18(c *Ctx) error {
 				c18Continue(c, c18R3, cv, m, d, base)
 			}
 			runs = append(runs, base)
+		}
+		if len(runs) >= 2 {
+			c18Histories(c, cv, runs, ci == 0 || c.Thorough())
+			c18OverlapCheckpoints(c, cv)
 		}
 		if len(runs) < 3 {
 			continue
